@@ -12,7 +12,7 @@ use flsrc::uci::Flounder;
 use refchess::{Kind, Mv, Pos};
 use serde_json::{json, Value};
 
-pub const RULE: &str = "game histories with controlled multiplicities: from startpos or a generated valid FEN, a random prefix, then shuffle cycles (both sides move a man out and back, 0..3 full cycles, knight/king/rook/bishop/queen shuffles, with and without lost castling rights, vanished ep squares or an intervening irreversible move) and a partial cycle, so that the candidate successors of the final position P have 0, 1, 2 or >=3 earlier occurrences; 1..2 position commands on a fresh engine (only the last one's history may count; in a fifth of the cases the game is given first and then its final position again as a bare 'position fen …' / 'position startpos' without moves, whose history is that single position). Oracle (value level, through the real command path): 'position ...' then 'go depth 1'; the score of the completed depth-1 iteration must equal max over legal m of ( n(m) >= 2 ? 0 : -Q(P·m) ), Q = reference quiescence value, n(m) = occurrences of P·m in the most recent command's history. Successors whose count differs between the rule-book identity (ep only if capturable) and the exact-field identity are not judged. Non-trivial = the case discriminates (value with the draw rule != value without it, or a successor seen exactly once keeps its real non-zero value while deciding the maximum) ; distinct by command text. Part 'two-components' (ENUMERATED, 1024 histories): a double pawn push on every file, then rook, king or knight shuffles of both sides (every combination of lost rights) after which the position comes back WITHOUT its en-passant square AND without a castling right (two components differ at once: a different position by any reading), stopped one move before that later position would occur the second time: its value must be the real one. Part 'veteran': the same depth-1 oracle on an engine that keeps searching heavy middlegame positions in between (chunks of 1.4 M nodes ended by a node deadline; 9 chunks per engine quick, 40 thorough), one few-men case after every chunk — the tables hold hundreds of thousands of entries by then (maximum reported), nothing of which the case may use (a judged search that used a cached result is excluded). Part 'deep' (values two and three plies down): the same kind of game (mostly 3..6 men, often one or two plies off the shuffle cycle so that the twice-seen positions lie two or three plies below the root), then 'go depth 2|3' on a fresh engine; EVERY completed iteration i must report V_h(P,i) = plain minimax over the reference rules in which any position below the root that the judged history already shows twice is worth 0, leaves by the reference quiescence (with depth <= 3 no position can recur inside the line itself, and the deeper-entry-reuse counter must be 0). Cases whose value differs between the two identities of positions are not judged. Non-trivial there = the rule applied one ply below the root only would give another value (a draw two or three plies down decides), or an abandoned earlier game would; distinct by (command text, depth).";
+pub const RULE: &str = "game histories with controlled multiplicities: from startpos or a generated valid FEN, a random prefix, then shuffle cycles (both sides move a man out and back, 0..3 full cycles, knight/king/rook/bishop/queen shuffles, with and without lost castling rights, vanished ep squares or an intervening irreversible move) and a partial cycle, so that the candidate successors of the final position P have 0, 1, 2 or >=3 earlier occurrences; 1..2 position commands on a fresh engine (only the last one's history may count; in a fifth of the cases the game is given first and then its final position again as a bare 'position fen …' / 'position startpos' without moves, whose history is that single position). Oracle (value level, through the real command path): 'position ...' then 'go depth 1'; the score of the completed depth-1 iteration must equal max over legal m of ( n(m) >= 2 ? 0 : -Q(P·m) ), Q = reference quiescence value, n(m) = occurrences of P·m in the most recent command's history. Successors whose count differs between the rule-book identity (ep only if capturable) and the exact-field identity are not judged. Non-trivial = the case discriminates (value with the draw rule != value without it, or a successor seen exactly once keeps its real non-zero value while deciding the maximum) ; distinct by command text. Part 'interrupted': the same oracle after 1..3 searches of the judged position that were cut off by a node deadline (mostly inside their first iterations) with no position command in between (a judged search that used a cached result is excluded). Part 'two-components' (ENUMERATED, 1024 histories): a double pawn push on every file, then rook, king or knight shuffles of both sides (every combination of lost rights) after which the position comes back WITHOUT its en-passant square AND without a castling right (two components differ at once: a different position by any reading), stopped one move before that later position would occur the second time: its value must be the real one. Part 'veteran': the same depth-1 oracle on an engine that keeps searching heavy middlegame positions in between (chunks of 1.4 M nodes ended by a node deadline; 9 chunks per engine quick, 40 thorough), one few-men case after every chunk — the tables hold hundreds of thousands of entries by then (maximum reported), nothing of which the case may use (a judged search that used a cached result is excluded). Part 'deep' (values two and three plies down): the same kind of game (mostly 3..6 men, often one or two plies off the shuffle cycle so that the twice-seen positions lie two or three plies below the root), then 'go depth 2|3' on a fresh engine; EVERY completed iteration i must report V_h(P,i) = plain minimax over the reference rules in which any position below the root that the judged history already shows twice is worth 0, leaves by the reference quiescence (with depth <= 3 no position can recur inside the line itself, and the deeper-entry-reuse counter must be 0). Cases whose value differs between the two identities of positions are not judged. Non-trivial there = the rule applied one ply below the root only would give another value (a draw two or three plies down decides), or an abandoned earlier game would; distinct by (command text, depth).";
 
 pub fn reversible(p: &Pos, m: &Mv) -> bool {
     let i = p.info(*m);
@@ -400,11 +400,23 @@ pub fn judge_on(engine: Option<&mut Flounder>, cmds: &[String], judged_history: 
             &mut fresh
         }
     };
-    let hits_before = fl.verif_searcher().verif.tt_hits.get();
+    let interruptions: Vec<(u8, u64)> = INTERRUPTIONS.with(|i| i.borrow().clone());
+    let veteran = veteran || !interruptions.is_empty();
+    let mut hits_before = fl.verif_searcher().verif.tt_hits.get();
     let r = std::panic::catch_unwind(std::panic::AssertUnwindSafe(|| {
         for c in &cmds {
             fl.verif_handle_command(c);
         }
+        // searches of the same position cut off by their (node) deadline, no position command in
+        // between: what they leave behind must not change what the judged search concludes
+        for (d, k) in &interruptions {
+            let sr = fl.verif_searcher();
+            sr.verif_set_node_limit(Some(*k));
+            sr.verif_set_hard_cap(Some(*k + 3_000_000));
+            fl.verif_handle_command(&format!("go depth {}", d));
+            fl.verif_searcher().verif_set_node_limit(None);
+        }
+        hits_before = fl.verif_searcher().verif.tt_hits.get();
         let hist_len = fl.verif_searcher().verif_repetition_snapshot().len();
         // query-level localiser (not a verdict): the predicate negamax evaluates at ply 1
         let mut q_flags = Vec::new();
@@ -430,7 +442,7 @@ pub fn judge_on(engine: Option<&mut Flounder>, cmds: &[String], judged_history: 
     };
     stats.eval();
     if veteran && fl.verif_searcher().verif.tt_hits.get() != hits_before {
-        stats.exclude("veteran engine: the judged search used a result cached earlier (not judged)");
+        stats.exclude("the judged search used a result cached by an earlier search on the same engine (not judged)");
         return Ok(());
     }
     let Some((_, score, _, mv)) = infos.iter().find(|i| i.0 == 1).copied() else {
@@ -625,6 +637,31 @@ pub fn judge_deep(cmds: &[String], judged_history: &[Pos], old_history: Option<&
     Ok(())
 }
 
+/// Part 'interrupted': position command(s), then 1..3 searches of that position cut off by a node
+/// deadline (mostly inside their first iterations), then — with no position command in between —
+/// the judged `go depth 1`.
+fn check_interrupted(bytes: &[u8], stats: &mut Stats) -> Verdict {
+    let mut s = Src::new(bytes);
+    let n = 1 + s.below(3);
+    let ints: Vec<(u8, u64)> = (0..n).map(|_| (2 + s.below(3) as u8, match s.below(4) { 0 => 1 + s.below(6) as u64, 1 | 2 => 2 + s.below(60) as u64, _ => 20 + s.below(600) as u64 })).collect();
+    let Some(c) = build_case(&bytes[bytes.len().min(8)..], false, stats) else { return Ok(()) };
+    INTERRUPTIONS.with(|i| *i.borrow_mut() = ints.clone());
+    let r = judge(&c.cmds, &c.judged_history, c.old_history.as_deref(), stats);
+    INTERRUPTIONS.with(|i| i.borrow_mut().clear());
+    match r {
+        Ok(()) => {
+            stats.class("judged_after_interrupted_searches_of_the_same_position");
+            Ok(())
+        }
+        Err(mut f) => {
+            f.detail["searches_cut_off_before_the_judged_go_(depth,node_deadline)"] = json!(ints);
+            f.detail["replay"] = json!({"interruptions": ints});
+            f.sig = format!("{}-after-interrupted-searches", f.sig);
+            Err(f)
+        }
+    }
+}
+
 fn check_deep(bytes: &[u8], stats: &mut Stats) -> Verdict {
     let depth = 2 + (bytes.first().copied().unwrap_or(0) % 2);
     let case = build_case(bytes.get(1..).unwrap_or(&[]), true, stats);
@@ -708,6 +745,12 @@ fn part_veteran(bytes: &[u8], stats: &mut Stats) -> Verdict {
 }
 
 thread_local! {
+    /// node deadlines of searches to be interrupted between the position command(s) and the judged
+    /// go (part 'interrupted'); empty elsewhere
+    static INTERRUPTIONS: std::cell::RefCell<Vec<(u8, u64)>> = std::cell::RefCell::new(Vec::new());
+}
+
+thread_local! {
     static VETERAN_ROUNDS: std::cell::Cell<usize> = std::cell::Cell::new(9);
 }
 
@@ -787,6 +830,12 @@ pub fn run(tier: Tier, seed: u64, known: &Known) -> PropRun {
     run.stats.merge(st);
     run.failure = fl;
     if run.failure.is_none() {
+        let part = Part { name: "interrupted", cases: tier.pick(1_500, 60_000), min_len: 32, max_len: 600, max_shrink: 200, threads: threads() };
+        let (st, fl) = run_part(&part, seed, known, check_interrupted);
+        run.stats.merge(st);
+        run.failure = fl;
+    }
+    if run.failure.is_none() {
         let cases = two_component_cases();
         run.stats.class_n("two_component_histories_enumerated", cases.len() as u64);
         let (st, fl) = crate::runner::run_enumerated("two-components", &cases, threads(), seed, known, |c, st| {
@@ -797,7 +846,7 @@ pub fn run(tier: Tier, seed: u64, known: &Known) -> PropRun {
         run.failure = fl;
     }
     if run.failure.is_none() {
-        let part = Part { name: "deep", cases: tier.pick(2_000, 60_000), min_len: 24, max_len: 600, max_shrink: 200, threads: threads() };
+        let part = Part { name: "deep", cases: tier.pick(1_400, 60_000), min_len: 24, max_len: 600, max_shrink: 200, threads: threads() };
         let (st, fl) = run_part(&part, seed, known, check_deep);
         run.stats.merge(st);
         run.failure = fl;
@@ -824,12 +873,22 @@ pub fn replay(part: &str, bytes: &[u8], case: &Value, stats: &mut Stats) -> Verd
                 if let Some(d) = deep {
                     return judge_deep(&cmds, &game, None, d as u8, stats);
                 }
+                if let Some(ints) = case.get("replay").and_then(|r| r.get("interruptions")).and_then(|x| x.as_array()) {
+                    let v: Vec<(u8, u64)> = ints.iter().filter_map(|p| Some((p.get(0)?.as_u64()? as u8, p.get(1)?.as_u64()?))).collect();
+                    INTERRUPTIONS.with(|i| *i.borrow_mut() = v);
+                    let r = judge(&cmds, &game, None, stats);
+                    INTERRUPTIONS.with(|i| i.borrow_mut().clear());
+                    return r;
+                }
                 return judge(&cmds, &game, None, stats);
             }
         }
     }
     if part == "deep" {
         return check_deep(bytes, stats);
+    }
+    if part == "interrupted" {
+        return check_interrupted(bytes, stats);
     }
     if part == "veteran" {
         VETERAN_ROUNDS.with(|c| c.set(40));
